@@ -3,8 +3,9 @@
 PLACEMENTS (who writes / reads which object - whole, slice, element, run-time index - from which sequential
 body / always-expression / concurrent context / entity-instance output) -> CoHDL source -> the REAL compiler:
 
-  * model tie   : the real verdict vs `Usage.check` (C07_MODEL=coded, default) or `Usage.check_fixed`
-                  (C07_MODEL=fixed) on the placement, compared inside Coq;
+  * model tie   : the real verdict AND rejection reason vs `Usage.check` (the discipline of the current tree) on the
+                  placement, compared inside Coq  (development only: C07_MODEL=old compares with `Usage.check_old`,
+                  the discipline before the fix commits 8d3d526 / 615f499 / f68d635);
   * spec        : an ACCEPTED design must be conflict free (`drivers <= 1`, variables / temporaries used by one
                   context, no input port written) - evaluated in Python and, independently, by
                   `Usage.conflict_freeb` in Coq; a conflict-free design that is REJECTED is only reported under
@@ -19,13 +20,14 @@ import json
 import os
 import re
 import time
+from concurrent.futures import ThreadPoolExecutor
 
 import common
 import explore as X
 import vhdl_reader as R
 
-MODEL = os.environ.get("C07_MODEL", "coded")
-assert MODEL in ("coded", "fixed"), "C07_MODEL must be coded or fixed"
+MODEL = os.environ.get("C07_MODEL", "current")
+assert MODEL in ("current", "old"), "C07_MODEL must be current (default) or old (development only)"
 
 KINDS = ["sig", "pout", "pin", "var", "tmp"]
 COQ_KIND = {"sig": "KSignal", "pout": "KPortOut", "pin": "KPortIn", "var": "KVariable", "tmp": "KTemporary"}
@@ -494,7 +496,7 @@ UNMODELLED = ("pushed signal requires default value",)
 
 
 def model_fn():
-    return "check" if MODEL == "coded" else "check_fixed"
+    return "check" if MODEL == "current" else "check_old"
 
 
 def placement_key(p):
@@ -555,16 +557,9 @@ def evaluate(ck, placements, tag):
         return "RealRejectOther"
 
     cases = ["(%s, %s)" % (t, real_term(i)) for i, t in enumerate(terms)]
-    bad = set(common.coq_bad_indices(ck, tag + "_tie", PREAMBLE, "Usage.design * real", cases,
-                                     "verdict_ok %s" % model_fn()))
-    # ---- (2) spec in Coq on the accepted ones ---------------------------------------------
     acc_ix = [i for i, a in enumerate(accepted) if a]
-    bad_spec = set()
-    if acc_ix:
-        b = common.coq_bad_indices(ck, tag + "_spec", PREAMBLE, "Usage.design", [terms[i] for i in acc_ix], "conflict_freeb")
-        bad_spec = {acc_ix[j] for j in b}
 
-    # ---- (3) emitted text -----------------------------------------------------------------
+    # ---- (3) emitted text: parse ---------------------------------------------------------
     dterms = []
     dix = []
     parsed = {}
@@ -590,12 +585,23 @@ def evaluate(ck, placements, tag):
             else:
                 report(ck, {"placement": "unparsed"}, "emitted VHDL left the parsed subset: " + str(e),
                              {"placement_json": placements[i], "source": designs[i]["source"], "vhdl": vhdl}, no_input=True)
-    bad_drv = set()
+
+    # ---- all Coq evaluations, side by side -------------------------------------------------
+    jobs = {"tie": (tag + "_tie", "Usage.design * real", cases, "verdict_ok %s" % model_fn(), 400)}
+    if acc_ix:
+        jobs["spec"] = (tag + "_spec", "Usage.design", [terms[i] for i in acc_ix], "conflict_freeb", 400)
     if dterms:
-        b = common.coq_bad_indices(ck, tag + "_drv", PREAMBLE, "Syntax.design", dterms, "single_driver", shard=200)
-        bad_drv = {dix[j] for j in b}
-        # applicability of C07_single_driver_sound_partial (different statements assign different signals)
-        b2 = common.coq_bad_indices(ck, tag + "_drvroots", PREAMBLE, "Syntax.design", dterms, "single_driver_roots", shard=200)
+        jobs["drv"] = (tag + "_drv", "Syntax.design", dterms, "single_driver", 150)
+        jobs["roots"] = (tag + "_drvroots", "Syntax.design", dterms, "single_driver_roots", 150)
+    with ThreadPoolExecutor(len(jobs)) as ex:
+        futs = {k: ex.submit(common.coq_bad_indices, ck, j[0], PREAMBLE, j[1], j[2], j[3], j[4]) for k, j in jobs.items()}
+        outs = {k: f.result() for k, f in futs.items()}
+    bad = set(outs["tie"])                                          # (1) model tie
+    bad_spec = {acc_ix[j] for j in outs.get("spec", [])}            # (2) spec on the accepted ones
+    bad_drv = {dix[j] for j in outs.get("drv", [])}                 # (3) single_driver on the emitted text
+    if dterms:
+        b2 = outs["roots"]
+        # different statements assign different SIGNALS (the roots-level corollary applies as well)
         ck.count("single_driver_roots_true", len(dterms) - len(b2))
         ck.count("single_driver_roots_false_but_scalars_disjoint", len([j for j in b2 if dix[j] not in bad_drv]))
 
@@ -683,6 +689,34 @@ def evaluate(ck, placements, tag):
     return res
 
 
+def observe_overlap(ck):
+    """OBSERVATION (no obligation): two overlapping assignments to one signal inside ONE concurrent context / always
+    block.  By the letter of the property the signal is still driven by one concurrent BLOCK; the block is emitted as
+    several concurrent VHDL statements, so at statement level there are two drivers."""
+    ps = [P(("sig", [("K1", "W", "whole"), ("K1", "W", "s32")])),
+          P(("pout", [("A0", "W", "whole"), ("A0", "W", "e1")])),
+          P(("sig", [("K1", "W", "e1"), ("K1", "W", "e1")]))]
+    designs = [{"name": "obs_%02d" % i, "source": build(p)[0], "entity": "E"} for i, p in enumerate(ps)]
+    res = X.compile_designs(ck, designs)
+    obs = []
+    for p, r in zip(ps, res):
+        o = {"placement": p, "accepted": bool(r["ok"])}
+        if r["ok"]:
+            try:
+                _, d = R.read_design(r["vhdl"])
+                o["statement_level_clash"] = py_clash(d)
+                o["driver_statements"] = driver_lines(r["vhdl"], ["x0", "buffer_x0"])
+            except R.Unparsed as e:
+                o["unparsed"] = str(e)
+        else:
+            o["error"] = r.get("error", "")[:160]
+        obs.append(o)
+    ck.cov["observation_overlapping_assignments_in_one_concurrent_block"] = {
+        "note": "inside the property text (one concurrent block drives the signal), therefore not a violation; "
+                "not generated as placements because single_driver (statement level) is false on them",
+        "cases": obs}
+
+
 def run(ck: common.Check, replay=None):
     ck.check_props("C07_Properties.v")
     ck.cov["model"] = MODEL
@@ -691,6 +725,7 @@ def run(ck: common.Check, replay=None):
         p = {"objects": [{"kind": o["kind"], "acc": [tuple(a) for a in o["acc"]]} for o in p["objects"]]}
         evaluate(ck, [p], "replay")
         return
+    observe_overlap(ck)
     reg = corpus()
     ck.cov["corpus"] = len(reg)
     seen = set()
@@ -703,7 +738,7 @@ def run(ck: common.Check, replay=None):
     if os.environ.get("C07_ONLY_CORPUS"):
         ck.cov["only_corpus"] = True   # mutation self-test shortcut: the regression corpus alone
     elif ck.tier == "quick":
-        target = max(300, len(todo) + 200)
+        target = len(todo) + 150
         guard = 0
         while len(todo) < target and guard < 100000:
             guard += 1
